@@ -371,7 +371,7 @@ def run(pid, tier, seed, spec):
     return 1 if violations else 0
 
 
-SETUP_WANT = {'trace'}
+SETUP_WANT = {'trace', 'tables', 'ast'}
 
 
 def setup():
